@@ -14,21 +14,21 @@ import (
 
 // Settings are the inheritable settings relevant for convertibility.
 type Settings struct {
-	SkipCopy         bool   `json:"skipCopy,omitempty"`
-	ZeroPtr          bool   `json:"zeroPtr,omitempty"` // useZeroValueOnPointerInconsistency
-	EnumOff          bool   `json:"enumOff,omitempty"`
-	EnumUnknown      string `json:"enumUnknown,omitempty"`
-	IgnoreMissing    bool   `json:"ignoreMissing,omitempty"`
-	IgnoreUnexported bool   `json:"ignoreUnexported,omitempty"`
-	MatchIgnoreCase  bool   `json:"matchIgnoreCase,omitempty"`
-	UseUnderlying    bool   `json:"useUnderlying,omitempty"`
-	EnumExclude      []string `json:"enumExclude,omitempty"` // "pkgkey.Name" of excluded types
+	SkipCopy         bool     `json:"skipCopy,omitempty"`
+	ZeroPtr          bool     `json:"zeroPtr,omitempty"` // useZeroValueOnPointerInconsistency
+	EnumOff          bool     `json:"enumOff,omitempty"`
+	EnumUnknown      string   `json:"enumUnknown,omitempty"`
+	IgnoreMissing    bool     `json:"ignoreMissing,omitempty"`
+	IgnoreUnexported bool     `json:"ignoreUnexported,omitempty"`
+	MatchIgnoreCase  bool     `json:"matchIgnoreCase,omitempty"`
+	UseUnderlying    bool     `json:"useUnderlying,omitempty"`
+	EnumExclude      []string `json:"enumExclude,omitempty"`  // "pkgkey.Name" of excluded types
 	ZeroBasic        bool     `json:"zeroBasic,omitempty"`    // update:ignoreZeroValueField:basic
 	ZeroStruct       bool     `json:"zeroStruct,omitempty"`   // update:ignoreZeroValueField:struct
 	ZeroNillable     bool     `json:"zeroNillable,omitempty"` // update:ignoreZeroValueField:nillable
 	DefaultUpdate    bool     `json:"defaultUpdate,omitempty"`
-	Wrap             string `json:"wrap,omitempty"` // "" | errors | using (no influence on convertibility)
-	WrapPkg          string `json:"wrapPkg,omitempty"`
+	Wrap             string   `json:"wrap,omitempty"` // "" | errors | using (no influence on convertibility)
+	WrapPkg          string   `json:"wrapPkg,omitempty"`
 }
 
 // Lines renders the settings as directive lines (without prefix).
@@ -117,7 +117,7 @@ type Method struct {
 	EnumMap  map[string]string    `json:"enumMap,omitempty"`
 	// EnumTransform: configs of `enum:transform regex PATTERN REPLACEMENT`
 	EnumTransform []string `json:"enumTransform,omitempty"`
-	Default  *Func                `json:"default,omitempty"`
+	Default       *Func    `json:"default,omitempty"`
 	// Roles of the declared parameters in order: source | context | target
 	Roles []string `json:"roles,omitempty"`
 	// FieldLines counts further method-level lines goverter treats as field settings
@@ -231,6 +231,7 @@ type state struct {
 	seen    map[string]bool // named source types seen inline in the current (sub-)method
 	cursig  [2]string
 	depth   int
+	dirty   *bool // the method being planned was marked dirty (a seen named type was met again); shared by copies of the state within one method
 }
 
 func (st *state) prog() *spec.Program { return st.c.Prog }
@@ -371,7 +372,7 @@ func (c *Conv) Plan(m *Method) (*Result, *Reject) {
 				return nil, reject("update-source", "source must be struct or pointer to struct")
 			}
 		}
-		p, rej := st.structRule(src, tu.Elem)
+		p, rej := st.replan(func() (*Plan, *Reject) { return st.structRule(src, tu.Elem) })
 		if rej != nil {
 			return nil, rej
 		}
@@ -394,12 +395,30 @@ func (c *Conv) Plan(m *Method) (*Result, *Reject) {
 	if rej := st.validDefault(m); rej != nil {
 		return nil, rej
 	}
-	p, rej := st.rules(m.Source, m.Target)
+	p, rej := st.replan(func() (*Plan, *Reject) { return st.rules(m.Source, m.Target) })
 	if rej != nil {
 		return nil, rej
 	}
 	res.Top = p
 	return res, nil
+}
+
+// replan runs build and, as goverter does for a method that was marked dirty, runs it again
+// with the helper methods known that the previous run created: a position that was built inline
+// at first (because no helper existed yet) calls the helper in the final code.
+func (st *state) replan(build func() (*Plan, *Reject)) (*Plan, *Reject) {
+	if st.dirty == nil {
+		st.dirty = new(bool)
+	}
+	p, rej := build()
+	for i := 0; rej == nil && *st.dirty && i < 4; i++ {
+		*st.dirty = false
+		for k := range st.seen {
+			delete(st.seen, k)
+		}
+		p, rej = build()
+	}
+	return p, rej
 }
 
 // position decides a nested position (everything below the top of a method).
@@ -438,7 +457,8 @@ func (st *state) position(src, dst *spec.T) (*Plan, *Reject) {
 		inner.seen = map[string]bool{}
 		inner.cursig = [2]string{key(src), key(dst)}
 		inner.depth++
-		p, rej := inner.rules(src, dst)
+		inner.dirty = new(bool)
+		p, rej := inner.replan(func() (*Plan, *Reject) { return inner.rules(src, dst) })
 		if rej != nil {
 			return nil, rej
 		}
@@ -459,7 +479,12 @@ func (st *state) boundary(src, dst *spec.T) bool {
 	}
 	create := false
 	if st.named(src) && st.seen[key(src)] {
+		// goverter marks the method it is building as dirty here: it is built again, and the
+		// second build finds the helper methods the first one created (see replan)
 		create = true
+		if st.dirty != nil {
+			*st.dirty = true
+		}
 	} else if !curPtrStruct {
 		nonBasicNamed := func(t *spec.T) bool {
 			return st.named(t) && st.under(t).K != spec.KBasic
